@@ -30,6 +30,7 @@ CONSTANTS
   OpKinds,         \* subset of {"add","addition","empty","compactall","compactrange","reload","reopen","clean"}
   ReaderHandles,   \* handles restricted to ReaderOps (e.g. a reading/reloading handle racing writers)
   ReaderOps,
+  ReaderMaxOps,    \* API calls of a reader handle
   CrashOn,         \* BOOLEAN: handles may be killed at any step
   FixRelockOwner,  \* TRUE: a compaction that loses the re-lock race does not believe it owns the lock (D5)
   FixRebase,       \* TRUE: after re-taking the lock the compaction re-reads tables.list and rebases (D6)
@@ -75,7 +76,7 @@ Init ==
   /\ pending = [h \in Handles |-> NoCall] /\ acked = {} /\ failed = {} /\ crashed = {}
   /\ pc = [h \in Handles |-> "idle"] /\ loc = [h \in Handles |-> L0]
   /\ stack = [h \in Handles |-> InitNames] /\ closedRd = [h \in Handles |-> {}]
-  /\ opsLeft = [h \in Handles |-> MaxOps] /\ nextId = InitN + 1 /\ nextTxn = InitN + 1
+  /\ opsLeft = [h \in Handles |-> IF h \in ReaderHandles THEN ReaderMaxOps ELSE MaxOps] /\ nextId = InitN + 1 /\ nextTxn = InitN + 1
   /\ act = [n |-> 0, h |-> 0, a |-> "Init", op |-> "", pk |-> "", res |-> "", arg |-> <<>>]
 
 -----------------------------------------------------------------------------
@@ -122,8 +123,12 @@ StartAdd(h, parts, op) ==
 
 StartCompact(h, f, l, op) ==
   /\ Room
+  /\ 1 <= f /\ f < l /\ l <= Len(stack[h])
+  /\ (op = "compactall") = (f = 1 /\ l = Len(stack[h]))
   /\ Start(h, op, [L0 EXCEPT !.op = op, !.first = f, !.last = l], "k_lock", [op |-> op, txn |-> 0, marks |-> {}])
   /\ UNCHANGED <<nextId, nextTxn>>
+
+StartCompactAll(h) == StartCompact(h, 1, Len(stack[h]), "compactall")
 
 StartOther(h, op, firstpc, l) ==
   /\ Start(h, op, l, firstpc, [op |-> op, txn |-> 0, marks |-> {}])
@@ -133,9 +138,29 @@ Calls(h) ==
   \/ StartAdd(h, 1, "add")
   \/ StartAdd(h, 2, "addition")
   \/ StartAdd(h, 1, "empty")
-  \/ (Len(stack[h]) >= 2 /\ StartCompact(h, 1, Len(stack[h]), "compactall"))
-  \/ \E f \in 1..Len(stack[h]) : \E l \in (f + 1)..Len(stack[h]) :
-        (f # 1 \/ l # Len(stack[h])) /\ StartCompact(h, f, l, "compactrange")
+  \/ StartCompactAll(h)
+  \* every range f < l <= 7, spelled out so that TLC labels each transition with its range (used by the transition cover)
+  \/ StartCompact(h, 1, 2, "compactrange")
+  \/ StartCompact(h, 1, 3, "compactrange")
+  \/ StartCompact(h, 1, 4, "compactrange")
+  \/ StartCompact(h, 1, 5, "compactrange")
+  \/ StartCompact(h, 1, 6, "compactrange")
+  \/ StartCompact(h, 1, 7, "compactrange")
+  \/ StartCompact(h, 2, 3, "compactrange")
+  \/ StartCompact(h, 2, 4, "compactrange")
+  \/ StartCompact(h, 2, 5, "compactrange")
+  \/ StartCompact(h, 2, 6, "compactrange")
+  \/ StartCompact(h, 2, 7, "compactrange")
+  \/ StartCompact(h, 3, 4, "compactrange")
+  \/ StartCompact(h, 3, 5, "compactrange")
+  \/ StartCompact(h, 3, 6, "compactrange")
+  \/ StartCompact(h, 3, 7, "compactrange")
+  \/ StartCompact(h, 4, 5, "compactrange")
+  \/ StartCompact(h, 4, 6, "compactrange")
+  \/ StartCompact(h, 4, 7, "compactrange")
+  \/ StartCompact(h, 5, 6, "compactrange")
+  \/ StartCompact(h, 5, 7, "compactrange")
+  \/ StartCompact(h, 6, 7, "compactrange")
   \/ StartOther(h, "reload", "r_read", ToReload([L0 EXCEPT !.op = "reload"], "ret", TRUE))
   \/ StartOther(h, "reopen", "c_read", [L0 EXCEPT !.op = "reopen"])
   \/ StartOther(h, "clean", "l_lock", [L0 EXCEPT !.op = "clean"])
